@@ -10,6 +10,10 @@ factory raising on its first / second call}; assign() and Assign inside a tuple 
 Sub `argpath`: destination paths whose step ARGUMENTS are computed (T[...][T['K']['k1']], Path('a', Spec('K.k1')),
 T['a'][Val('b')]): the argument of the last step, of a middle step, of the step at which missing= attaches, of a
 step inside the tail missing= builds, and an argument that cannot be evaluated (an error, never "an absent segment").
+Sub `reuse`: ONE Assign spec object applied 2-4 times (glom() calls one after the other, Spec(a).glom, [a] / [{'r': a}]
+over a list of targets, an S-rooted destination in one caller-owned object filled from several items); the targets differ
+in what the computed step arguments denote (below the break point, at it, above it) and in where the path stops existing.
+Every application equals the plain Python assignment on its own target.
 
 Oracle: ref_assign() - the corresponding plain Python assignment on an independently built copy; a computed step
 argument denotes the value it has on the target before the assignment (that is what reading the path does).
@@ -29,6 +33,8 @@ RULE = ('targets: tree-shaped recipes (depth <= 3) incl. immutable and fault-inj
         'literal / T / Spec / self-referential; missing factories incl. counting and raising ones. '
         'argpath: the same with step arguments computed from the target (T / Spec / Val) at the last, a middle, the '
         'attaching and a missing-built step, and arguments that fail. '
+        'reuse: one Assign object applied to 2-4 targets (successive calls, [spec] over a list, one S-rooted destination '
+        'object) on which its computed arguments denote different keys and the path breaks at the same / another segment. '
         'Non-trivial = path length >= 2 and (missing used, or a fault / failure, or a T-valued source, or a computed '
         'step argument).')
 ASSUMPTIONS = [
@@ -36,6 +42,8 @@ ASSUMPTIONS = [
     'wildcard destinations are covered by C14; atomicity is claimed for wildcard-free paths only',
     'targets are tree-shaped so that a position identifies an object (frame condition by position -> id)',
     'a T / Spec step argument of a destination denotes its value on the target as it is before the assignment',
+    'reuse: a spec object has no memory - applying it to a target means what a fresh, equal spec would mean there; '
+    'an error inside [spec] ends the evaluation of the list (the items before it were assigned, the failing one is untouched)',
 ]
 
 
@@ -561,6 +569,350 @@ def check(recipe, ctx):
 
 
 # ---------------------------------------------------------------------------
+# ONE Assign spec object evaluated several times (sub `reuse`)
+#
+# The statement speaks of "a successful assign(obj, path, val) or Assign spec": a spec is a value that may be applied
+# to any number of targets (glom(t1, a); glom(t2, a) / [a] over a list / Spec(a).glom(t) ...), and EACH application has
+# to equal the plain Python assignment on ITS target.  recipe['evals'] lists the applications: every one gets its own
+# copy of the target recipe in which the holder entries named in 'hold' have other values (so the computed step
+# arguments of the one destination path denote other keys there), and, with 'pre' = m, in which the first m absent
+# parent segments were created beforehand in plain Python (so the path stops existing later, or not at all).
+# Modes `shared-*`: the destination is rooted at ONE caller-owned object in the scope (S['tgt']) and the evaluations
+# run on the items, which only supply the arguments and the value (a log / index filled from many items).
+
+REUSE_MODES = ['list', 'seq', 'seq-tuple', 'specobj', 'shared-list', 'list', 'seq', 'listdict', 'shared-seq', 'list']
+REUSE_HOW = ['tail', 'tail', 'tail', 'tail', 'tail+later', 'mixed']
+TAIL_KEYS = ['zz', 'new', 'a', 'b', 'k', 5, 0]
+PRE_KIND = {'dict': 'count', 'list': 'list', 'obj': 'obj', 'count': 'count', 'raise2': 'count', 'raise': 'count', None: 'count'}
+
+
+def break_index(root, steps):
+    """index of the first parent segment that is absent (None: every parent exists)"""
+    cur = root
+    for k in range(len(steps) - 1):
+        try:
+            cur = mc.access(cur, steps[k][0], steps[k][1])
+        except Exception:
+            return k
+    return None
+
+
+def variant_trec(trec, hold):
+    """the target recipe with other values in the holder"""
+    if not hold:
+        return trec
+    h = dict((name, v) for name, v in hold)
+    entries = list(trec[1])
+    key, holder = entries[-1]
+    if key != HOLDER or set(h) - set(name for name, _ in holder[1]):
+        raise HarnessBug('reuse recipe is inconsistent: %r overrides %r' % (holder, hold))
+    new = ['dict', [[name, ['i' if isinstance(h[name], int) else 's', h[name]] if name in h else v]
+                    for name, v in holder[1]]]
+    return [trec[0], entries[:-1] + [[HOLDER, new]]]
+
+
+def resolve_args(target, steps, args):
+    """the steps with every computed argument replaced by the value it denotes on THIS target
+    (plain Python: target['K'][name] / target.K[name]); a Val argument is the constant it wraps"""
+    out = list(steps)
+    for k in sorted(args):
+        kind, name = args[k]
+        if kind in FAIL_KINDS:
+            raise HarnessBug('reuse recipes have no failing arguments')
+        if kind != 'Val':
+            out[k] = (steps[k][0], _holder(target)[name])
+    return out
+
+
+def gen_val_reuse(draw, target):
+    """values whose identity across several evaluations the statement settles: atoms, and T / Spec sources in the
+    target of the evaluation (whether a container literal is shared between evaluations is not C11's business)"""
+    v = gen_val(draw, target)
+    if v[0] == 'selfref' or (v[0] == 'lit' and v[1][0] not in ('i', 's', 'none')):
+        v = ['lit', draw(st.sampled_from([['i', 42], ['s', 'val'], ['none']]))]
+    return v
+
+
+def gen_reuse(draw):
+    mode = draw(st.sampled_from(REUSE_MODES))
+    shared = mode.startswith('shared')
+    r = gen_args(draw, ('tail', 'tail', 'tail', 'tail', 'tail', 'attach') if shared else
+                 ('tail', 'tail', 'tail', 'tail', 'attach', 'mid', 'last'))
+    trec, steps = r['target'], r['steps']
+    # (a constant argument cannot differ between the evaluations: fewer of those here)
+    args = [[k, 'T' if kind == 'Val' and draw(st.integers(0, 2)) else kind, name] for k, kind, name in r['args']]
+    target = mc.build(trec).obj
+    n = len(steps)
+    b = break_index(target, steps)
+    if shared and b is not None and any(k > b for k, _, _ in args) and all(k != b for k, _, _ in args):
+        # one destination object for all evaluations: the path stops existing at the same segment again only where
+        # the attaching segment is another one, too - it is computed as well
+        if steps[b][0] == '.':
+            steps[b][0] = 'P'
+        name = 'k%d' % b
+        args = sorted(args + [[b, draw(st.sampled_from(['T', 'Spec', 'SpecStr'])), name]])
+        holder = trec[1][-1][1]
+        trec = [trec[0], trec[1][:-1] + [[HOLDER, ['dict', holder[1] + [[name, ['i' if isinstance(steps[b][1], int) else 's',
+                                                                           steps[b][1]]]]]]]]
+        target = mc.build(trec).obj
+    moving = [[k, name] for k, kind, name in args if kind != 'Val']
+    below = [[k, name] for k, name in moving if b is not None and k > b]
+    upto = [[k, name] for k, name in moving if b is None or k <= b]
+
+    def others(k):
+        """other values for the argument of step k (k <= b): another child of the same container / another absent key"""
+        cur = target
+        for op, seg in steps[:k]:
+            cur = mc.access(cur, op, seg)
+        seg = steps[k][1]
+        kind = mc.kind_of(cur)
+        if k == b:
+            if kind == 'seq':
+                return [str(int(seg) + 1) if isinstance(seg, str) else seg + 1]
+            return [v for v in ['zz', 'new', 'qq', 'rr'] if v != seg]
+        if kind == 'map':
+            return [c for c in sorted(dict.keys(cur), key=repr) if c != seg and c != HOLDER and isinstance(c, (int, str))]
+        if kind == 'seq':
+            return [c for c in [str(c) if isinstance(seg, str) else c for c in range(len(cur))] if c != seg]
+        return [c for c in _attr_names(cur) if c != seg and c != HOLDER]
+
+    evals = [{'hold': [], 'pre': 0}]
+    for _ in range(draw(st.sampled_from([1, 1, 2, 2, 3]))):
+        how = draw(st.sampled_from((REUSE_HOW if below else []) + (['later', 'later'] if b is not None and not shared else [])
+                                   + (['prefix', 'prefix'] if upto else []) + ['same']))
+        hold, pre = [], 0
+        if how in ('tail', 'tail+later', 'mixed'):
+            must = draw(st.sampled_from(range(len(below))))
+            for j, (k, name) in enumerate(below):
+                if j == must or draw(st.booleans()):
+                    hold.append([name, draw(st.sampled_from([v for v in TAIL_KEYS if v != steps[k][1]]))])
+            if shared and how != 'mixed':
+                hold.extend([name, draw(st.sampled_from(others(k)))] for k, name in upto if k == b)
+        if how in ('later', 'tail+later') and not shared:
+            pre = draw(st.sampled_from(range(1, n - b)))
+        if how in ('prefix', 'mixed'):
+            for k, name in upto:
+                cands = others(k)
+                if cands and draw(st.integers(0, 3)) > 0:
+                    hold.append([name, draw(st.sampled_from(cands))])
+        evals.append({'hold': hold, 'pre': pre})
+    sps = ['s-rooted'] if mode.startswith('shared') else ['path', 't'] if mode in ('list', 'listdict') else \
+        draw(st.sampled_from([['path', 't'], ['path', 't'], ['s-rooted']]))
+    return {'target': trec, 'steps': steps, 'args': args, 'val': gen_val_reuse(draw, target), 'missing': r['missing'],
+            'mode': mode, 'evals': evals, 'sp': sps}
+
+
+def check_reuse(recipe, ctx):
+    base = [(op, seg) for op, seg in recipe['steps']]
+    args = dict((k, (kind, name)) for k, kind, name in recipe['args'])
+    vrec, mode, mname, evals = recipe['val'], recipe['mode'], recipe['missing'], recipe['evals']
+    shared, bulk = mode.startswith('shared'), mode in ('list', 'listdict', 'shared-list')
+    n, ne = len(base), len(evals)
+
+    def world():
+        """the targets of the evaluations (+ the shared destination root), independently built"""
+        objs = [mc.build(variant_trec(recipe['target'], ev['hold'])).obj for ev in evals]
+        for o, ev in zip(objs, evals):
+            if ev['pre'] and not shared:
+                st_ = resolve_args(o, base, args)
+                b = break_index(o, st_)
+                if b is not None:
+                    fac = Factory(PRE_KIND[mname])
+                    try:
+                        ref_assign(o, st_[:min(b + ev['pre'], n - 1)], fac(), fac)     # plain Python, both worlds alike
+                    except RefErr:
+                        pass
+        return objs + ([mc.build(recipe['target']).obj] if shared else [])
+
+    def dest(w, i):
+        return w[-1] if shared else w[i]
+
+    # ---- reference world: the plain Python assignment, evaluation after evaluation, each on its own target
+    rw = world()
+    rfac = ref_missing(mname)
+    facts, rstruct, rcalls, rpos = [], [tg.structure(rw)], [0], [mc.positions(rw)]
+    for i in range(ne):
+        st_ = resolve_args(rw[i], base, args)
+        b = break_index(dest(rw, i), st_)
+        try:
+            try:
+                rval = ref_val(vrec, rw[i])
+            except Exception as e:
+                raise RefErr('val', None, e)
+            ref_assign(dest(rw, i), st_, rval, rfac)
+            facts.append(('ok', st_, b))
+        except RefErr as e:
+            facts.append(('err', st_, b, e.kind, e.k, e.exc))
+        rstruct.append(tg.structure(rw))
+        rcalls.append(rfac.calls if rfac is not None else 0)
+        rpos.append(mc.positions(rw))
+        if bulk and facts[-1][0] == 'err':
+            break           # (an error ends the evaluation of the enclosing [spec])
+    nrun = len(facts)
+    first_err = nrun - 1 if facts[-1][0] == 'err' else None
+
+    # ---- classes, from the facts
+    labs = set(['evals-%d' % ne, 'mode-' + mode, 'missing-' + str(mname), 'val-' + vrec[0]])
+    moving = [k for k, (kind, _) in args.items() if kind != 'Val']
+    for j in range(nrun):
+        labs.add('eval-' + facts[j][0])
+        for i in range(j):
+            (ei, si, bi), (ej, sj, bj) = facts[i][:3], facts[j][:3]
+            ok = '-ok' if ei == ej == 'ok' else ''
+            diff = [k for k in moving if si[k] != sj[k]]
+            if not diff and bi == bj and evals[i] == evals[j]:
+                labs.add('reuse-identical' + ok)
+            if mname is None or bi is None or bj is None:
+                if diff:
+                    labs.add('reuse-arg-differs' + ok)
+                continue
+            if bi != bj:
+                labs.add('reuse-other-break' + ok)
+                continue
+            labs.add('reuse-same-break' + ok)
+            if any(k > bi for k in diff):
+                labs.add('reuse-same-break-tail-arg-differs' + ok)
+                labs.add('reuse-same-break-tail-arg-differs' + ok + '-in-' + ('shared' if shared else 'bulk' if bulk else 'seq'))
+                if any(bi < k < n - 1 for k in diff):
+                    labs.add('reuse-same-break-inner-arg-differs' + ok)
+            if any(k == bi for k in diff):
+                labs.add('reuse-same-break-attach-arg-differs' + ok)
+            if any(k < bi for k in diff):
+                labs.add('reuse-same-break-prefix-arg-differs' + ok)
+    ctx.label(*sorted(labs))
+    ctx.nontrivial(n >= 2 and nrun >= 2)
+
+    for sp in mc.spellings(base):
+        if sp == 'str' or sp not in recipe['sp']:
+            continue
+        ctx.label('spelling-' + sp)
+        gw = world()
+        gfac = make_missing(mname)
+        path = make_path_args(base, sp, dict((k, build_arg(kind, name, base[k][1], gw[0]))
+                                             for k, (kind, name) in args.items()))
+        a = Assign(path, build_val(vrec, gw[0]), missing=gfac)      # THE spec object: built once
+        holder_spec = Spec(a)
+        srcs = [ref_val(vrec, gw[i]) if vrec[0] in ('T', 'Spec') and facts[i][0] == 'ok' else None for i in range(nrun)]
+
+        def scope_of(i):
+            return {'tgt': dest(gw, i)} if sp == 's-rooted' else {}
+
+        def where(i):
+            return 'spelling=%s mode=%s a = %r; evaluation %d of %d (targets %r%s)' % (
+                sp, mode, a, i, ne, gw[:ne], ', scope tgt=%r' % (gw[-1],) if shared else '')
+
+        def read_back(i):
+            # reading the path (as it resolves on the target of evaluation i) yields the value
+            try:
+                back = dest(gw, i)
+                for op, seg in facts[i][1]:
+                    back = mc.access(back, op, seg)
+            except Exception as e:
+                raise Mismatch('read-back', '%s: path not readable afterwards: %r' % (where(i), e))
+            if vrec[0] in ('T', 'Spec'):
+                if back is not srcs[i] and not (isinstance(srcs[i], tg._ATOM) and back == srcs[i]):
+                    raise Mismatch('read-back', '%s: expected the source object itself, got %r' % (where(i), back))
+            try:
+                gback = glom.glom(gw[i], path, scope=scope_of(i))
+            except Exception as e:
+                raise Mismatch('read-back', '%s: glom(target, path) afterwards raised %s: %r'
+                               % (where(i), type(e).__name__, getattr(e, 'args', e)))
+            if not tg.same(gback, back):
+                raise Mismatch('read-back', '%s: glom(target, path) afterwards gives %r, the assigned slot holds %r'
+                               % (where(i), gback, back))
+
+        def effect(i):
+            # the world after evaluations 0..i
+            if tg.structure(gw) != rstruct[i + 1]:
+                raise Mismatch('wrong-effect', '%s: the plain assignments give %r, got %r' % (where(i), rw_repr(i), gw))
+            if isinstance(gfac, Factory) and gfac.calls != rcalls[i + 1]:
+                raise Mismatch('factory-calls', '%s: %d absent segments to create so far, factory called %d times'
+                               % (where(i), rcalls[i + 1], gfac.calls))
+
+        def rw_repr(i):
+            # (the reference world is past evaluation i by now: rebuild it up to there for the message)
+            w = world()
+            fac = ref_missing(mname)
+            for j in range(i + 1):
+                if facts[j][0] == 'ok':
+                    ref_assign(dest(w, j), facts[j][1], ref_val(vrec, w[j]), fac)
+            return w
+
+        def frame(i0, i1, pos0, i):
+            # every position whose object keeps its identity under the plain Python assignments keeps it under glom
+            pos1 = mc.positions(gw)
+            for pos, oid in rpos[i0].items():
+                if rpos[i1].get(pos) == oid and (pos not in pos1 or pos1[pos] != pos0.get(pos)):
+                    raise Mismatch('frame', '%s: object at position %r was replaced or lost' % (where(i), pos))
+
+        if not bulk:
+            for i in range(nrun):
+                g = gw[i]
+                before, pos0 = tg.snapshot(gw), mc.positions(gw)
+                try:
+                    if mode == 'seq-tuple':
+                        res = glom.glom(g, (a,), scope=scope_of(i))
+                    elif mode == 'specobj':
+                        res = holder_spec.glom(g, scope=scope_of(i))
+                    else:
+                        res = glom.glom(g, a, scope=scope_of(i))
+                    err = None
+                except Exception as e:
+                    err = e
+                if facts[i][0] == 'ok':
+                    if err is not None:
+                        raise Mismatch('spurious-error', '%s: the plain assignment succeeds; glom raised %s: %r'
+                                       % (where(i), type(err).__name__, getattr(err, 'args', err)))
+                    if res is not g:
+                        raise Mismatch('wrong-return', '%s: must return the same object, got %r' % (where(i), res))
+                    effect(i)
+                    read_back(i)
+                    frame(i, i + 1, pos0, i)
+                else:
+                    if err is None:
+                        raise Mismatch('missing-error', '%s: the plain assignment fails (%s at step %s: %r); glom returned %r'
+                                       % ((where(i),) + facts[i][3:] + (res,)))
+                    d = tg.snapshot_diff(before, tg.snapshot(gw))
+                    if d:
+                        raise Mismatch('not-atomic', '%s: failed (%s) but the targets changed: %s'
+                                       % (where(i), type(err).__name__, d))
+        else:
+            items = gw[:ne]
+            pos0 = mc.positions(gw)
+            scope = {'tgt': gw[-1]} if shared else {}
+            try:
+                res = glom.glom(items, [{'r': a}] if mode == 'listdict' else [a], scope=scope)
+                err = None
+            except Exception as e:
+                err = e
+            last = nrun - 1
+            if first_err is None:
+                if err is not None:
+                    raise Mismatch('spurious-error', '%s: every plain assignment succeeds; glom raised %s: %r'
+                                   % (where(last), type(err).__name__, getattr(err, 'args', err)))
+                got = [x.get('r') if isinstance(x, dict) and mode == 'listdict' else x for x in res] \
+                    if isinstance(res, list) else None
+                if got is None or len(got) != ne or any(x is not y for x, y in zip(got, items)):
+                    raise Mismatch('wrong-return', '%s: every evaluation must return its target, got %r' % (where(last), res))
+                effect(last)
+                for i in range(nrun):
+                    # (with a shared destination a later evaluation may overwrite the slot of an earlier one)
+                    if i == last or not shared:
+                        read_back(i)
+                frame(0, nrun, pos0, last)
+            else:
+                if err is None:
+                    raise Mismatch('missing-error', '%s: the plain assignment fails (%s at step %s: %r); glom returned %r'
+                                   % ((where(first_err),) + facts[first_err][3:] + (res,)))
+                # the evaluations before the failing one took effect, the failing one left its target as it was
+                if tg.structure(gw) != rstruct[nrun]:
+                    raise Mismatch('not-atomic', '%s: failed (%s); the plain assignments before it give %r, got %r'
+                                   % (where(first_err), type(err).__name__, rw_repr(first_err), gw))
+                frame(0, nrun, pos0, first_err)
+    ctx.outcome([mode, [f[0] for f in facts], repr(recipe['steps'])])
+
+
+# ---------------------------------------------------------------------------
 # S-rooted destinations: put-get through the scope
 
 class NS(object):
@@ -730,6 +1082,11 @@ SUBS = [
         floors={'arg-fail-mid-missing': 0.3, 'spelling-t': 0.12}),
     Sub('argpath-s', check, gen=gen_args_s, quick=400, thorough=2500,
         floors={'arg-last-ok': 0.1, 'arg-mid-ok': 0.03, 'arg-attach-ok': 0.03, 'arg-tail-ok': 0.05, 'arg-fail': 0.04}),
+    Sub('reuse', check_reuse, gen=gen_reuse, quick=640, thorough=5000,
+        floors={'reuse-same-break-tail-arg-differs-ok': 0.18, 'reuse-same-break-tail-arg-differs-ok-in-bulk': 0.055,
+                'reuse-same-break-tail-arg-differs-ok-in-seq': 0.06, 'reuse-same-break-tail-arg-differs-ok-in-shared': 0.035,
+                'reuse-same-break-inner-arg-differs-ok': 0.04, 'reuse-arg-differs-ok': 0.04, 'reuse-other-break-ok': 0.012,
+                'reuse-identical-ok': 0.075, 'spelling-s-rooted': 0.12, 'spelling-t': 0.12}),
     Sub('wild', check_wild, gen=gen_wild, quick=1500, thorough=5000, floors={'wild-2': 0.1, 'wild-3': 0.1}),
     Sub('sassign', check_sassign, gen=gen_sassign, quick=1000, thorough=5000,
         floors={'spell-attr': 0.13, 'spell-path': 0.13, 'reader-attr': 0.13, 'reader-path': 0.13,
